@@ -278,6 +278,8 @@ Proof.
     replace (opener_of (if sq then [cRS] else [cRP])) with (Some (if sq then [cLS] else [cLP])) by (destruct sq; reflexivity).
     rewrite (close_ctx_app _ _ _ _ (pops e) (pend_ops e _)).
     rewrite (reduce_pend e Hok out _ eq_refl). cbn [close_ctx pend fst snd app].
+    replace (length out =? length (out ++ [ast_of e]))%nat with false
+      by (rewrite app_length; cbn [length]; symmetry; apply Nat.eqb_neq; lia).
     destruct sq; reflexivity.
 Qed.
 
